@@ -275,6 +275,22 @@ func c19Run(b *core.B) {
 			}
 		}
 	}
+	// a group count at the top of the int range: more groups than elements, one element each
+	for _, k := range kinds {
+		for _, ln := range []int{0, 1, 2, 3, 5, 40} {
+			if strings.Contains(k.name, "[5]") && ln != 5 {
+				continue
+			}
+			for _, n := range []int{math.MaxInt, math.MaxInt - 1, math.MaxInt - 4, math.MaxInt / 2, 1 << 40, math.MinInt} {
+				if !mine() || !b.Begin(fmt.Sprintf("groupBy(%d, %s of length %d)", n, k.name, ln)) {
+					continue
+				}
+				c19GroupBy(b, k.name, n, k.mk(ln))
+				b.NonTrivialDistinct()
+				b.Count("groupBy:n-at-the-extremes-of-int")
+			}
+		}
+	}
 	r := b.Rng(3)
 	nRand := 2000
 	if b.Tier == core.Thorough {
@@ -520,7 +536,7 @@ func init() {
 	core.Register(&core.Prop{
 		ID:         "C19",
 		Level:      "exploration",
-		Rule:       "range(a,b), between(a,b), until(n) called directly for all a, b, n in [-8, 8] (thorough: [-24, 24]) and {MinInt, MinInt+1, MaxInt-1, MaxInt} (all pairs, 441 + extremes) with expectations from overflow-checked arithmetic (sequences longer than 64 are checked on their first 64 elements and for not ending early) and drained with a Next() budget of expected+2, so termination is decided by count; the same helpers through a template for loop for all small arguments; iterators.GroupBy and plush.GroupByHelper for every length 0-40 x n in [-2, 12] x {[]string, []int, []struct, []*struct, *[]int, [5]int, *[5]int} plus random larger cases, judged by the partition laws (at most n groups, consecutive, concatenation = input, all but the last of equal size, errors for n <= 0 and non-sequences) and against each other; len on strings (multi-byte, invalid UTF-8, named string types such as template.HTML), slices, arrays, maps (also of named types), pointers to them, directly and through a template. Enumerated cases are distinct by construction.",
+		Rule:       "range(a,b), between(a,b), until(n) called directly for all a, b, n in [-8, 8] (thorough: [-24, 24]) and {MinInt, MinInt+1, MaxInt-1, MaxInt} (all pairs, 441 + extremes) with expectations from overflow-checked arithmetic (sequences longer than 64 are checked on their first 64 elements and for not ending early) and drained with a Next() budget of expected+2, so termination is decided by count; the same helpers through a template for loop for all small arguments; iterators.GroupBy and plush.GroupByHelper for every length 0-40 x n in [-2, 12] (and n at the extremes of int for six lengths) x {[]string, []int, []struct, []*struct, *[]int, [5]int, *[5]int} plus random larger cases, judged by the partition laws (at most n groups, consecutive, concatenation = input, all but the last of equal size, errors for n <= 0 and non-sequences) and against each other; len on strings (multi-byte, invalid UTF-8, named string types such as template.HTML), slices, arrays, maps (also of named types), pointers to them, directly and through a template. Enumerated cases are distinct by construction.",
 		Assume:     []string{"element order of a sequence is what Next() returns until the first nil"},
 		Batches:    batchesQT(8, 16),
 		Run:        c19Run,
